@@ -132,17 +132,27 @@ def sensitivity(args):
                 found_by = "thorough" if rc == 1 else None
             rec["detected_by"] = found_by
             if replays:
-                r_mut = _replay(d, replays[0])
-                r_ok = _replay(args.repo, replays[0])
-                rec["replay_on_mutant"] = {"exit": r_mut[0], "line": r_mut[1][:200]}
-                rec["replay_on_unchanged_tree"] = {"exit": r_ok[0], "line": r_ok[1][:120]}
-                try:
-                    with open(replays[0]) as f:
-                        rp = json.load(f)
-                    rec["minimised_ops"] = len(rp["ops"])
-                    rec["class"] = rp.get("class")
-                except Exception:
-                    pass
+                rows = []
+                for rpath in replays[:6]:
+                    r_mut = _replay(d, rpath)
+                    r_ok = _replay(args.repo, rpath)
+                    row = {"on_mutant": r_mut[0], "on_unchanged_tree": r_ok[0], "line": r_mut[1][:200]}
+                    try:
+                        with open(rpath) as f:
+                            rp = json.load(f)
+                        row["ops"] = len(rp["ops"])
+                        row["class"] = rp.get("class")
+                        row["stability"] = rp.get("found_by", {}).get("replay_stability")
+                    except Exception:
+                        pass
+                    rows.append(row)
+                best = next((r for r in rows if r["on_mutant"] == 1), rows[0])
+                rec["replays"] = rows
+                rec["replay_on_mutant"] = {"exit": best["on_mutant"], "line": best["line"],
+                                           "reproducing": sum(1 for r in rows if r["on_mutant"] == 1), "of": len(rows)}
+                rec["replay_on_unchanged_tree"] = {"exit": max(r["on_unchanged_tree"] for r in rows)}
+                rec["minimised_ops"] = best.get("ops")
+                rec["class"] = best.get("class")
             for rp in glob.glob(os.path.join(VERIF, "replays", prefix + "*")):
                 os.remove(rp)
             rec["status"] = "detected" if found_by else "MISSED"
